@@ -69,7 +69,7 @@ func comment(eofOK bool) []byte {
 	if vChoice(2) == 0 {
 		c := vBytes(vChoice(max + 1))
 		for _, b := range c {
-			vAssume(vAnd(b != '\n', b >= 0x20))
+			vAssume(vAnd(b != '\n', b > 0x20)) // visible characters: a leaked comment byte changes the document
 		}
 		text := append([]byte("//"), c...)
 		if !eofOK || vChoice(2) == 0 {
@@ -79,7 +79,7 @@ func comment(eofOK bool) []byte {
 	}
 	c := vBytes(vChoice(max + 1))
 	for i, b := range c {
-		vAssume(b >= 0x20)
+		vAssume(b > 0x20)
 		if i > 0 {
 			vAssume(vNot(vAnd(c[i-1] == '*', b == '/')))
 		}
